@@ -685,6 +685,14 @@ def compare_step(ctx, tr, i, rep, scale):
     return ok
 
 
+def drv(ctx, reqs, chunk=300):
+    """driver calls in bounded batches (requests carry whole matrices as hex strings)."""
+    out = []
+    for i in range(0, len(reqs), chunk):
+        out.extend(ctx.driver(reqs[i:i + chunk]))
+    return out
+
+
 def slim(c):
     """case without bulky gradient data for messages (the full case goes into violations)."""
     return {k: v for k, v in c.items() if k != "grads"}
@@ -696,7 +704,7 @@ def correspondence(ctx, traces, skip):
              if all(np.all(np.isfinite(x)) for x in (tr.pp[i][0]["V"], tr.pp[i][0]["l"], tr.pp[i][1]["V"], tr.pp[i][1]["l"]))]
     if not items:
         return
-    reps = ctx.driver([step_request(tr, i, "b") for tr, i in items])
+    reps = drv(ctx, [step_request(tr, i, "b") for tr, i in items])
     reqs = []
     for (tr, i), rb in zip(items, reps):
         if "error" in rb:
@@ -706,7 +714,7 @@ def correspondence(ctx, traces, skip):
         r = step_request(tr, i, "step")
         r["U"], r["s"] = hx(U), hx(s)
         reqs.append(r)
-    reps = ctx.driver(reqs)
+    reps = drv(ctx, reqs)
     for (tr, i), rep in zip(items, reps):
         if "error" in rep:
             raise kit.InfraError(f"driver error on {tr.who}: {rep['error']}")
@@ -732,7 +740,7 @@ def model_chain(ctx, traces):
                 "t": hx(s["t"]), "G": hx(tr.G[i]), "p": hx(tr.p or 2.0), "eps": hx(0.0)}
     for i in range(T):
         act = [tr for tr in todo if i < len(tr.pp)]
-        rb = ctx.driver([req(tr, i, "b") for tr in act])
+        rb = drv(ctx, [req(tr, i, "b") for tr in act])
         reqs = []
         for tr, b in zip(act, rb):
             if "error" in b:
@@ -742,14 +750,14 @@ def model_chain(ctx, traces):
             r["U"], r["s"] = hx(U), hx(s)
             svds[id(tr)].append({"U": r["U"], "s": r["s"]})
             reqs.append(r)
-        rs = ctx.driver(reqs)
+        rs = drv(ctx, reqs)
         for tr, rep in zip(act, rs):
             if "error" in rep:
                 raise kit.InfraError(f"driver error (fd_step) on {tr.who}: {rep['error']}")
             scales[id(tr)] = max(scales[id(tr)], check_svd(ctx, rep, tr.who + " (chain)"))
             states[id(tr)] = {"V": unhx(rep["V"]), "l": unhx(rep["l"]), "t": unhx(rep["t"]), "sketch": unhx(rep["sketch"]),
                               "hexes": (rep["V"], rep["l"], rep["t"])}
-    runs = ctx.driver([{"op": "fd_run", "d": tr.D, "k": tr.k, "beta": hx(tr.beta), "V": hx(np.zeros((tr.D, tr.k))),
+    runs = drv(ctx, [{"op": "fd_run", "d": tr.D, "k": tr.k, "beta": hx(tr.beta), "V": hx(np.zeros((tr.D, tr.k))),
                         "l": hx(np.zeros(tr.k)), "t": hx(0.0), "svds": svds[id(tr)]} for tr in todo])
     for tr, rep in zip(todo, runs):
         st = states[id(tr)]
